@@ -205,6 +205,7 @@ def run_harness(engine: Engine, qualname: str, case: str, shape, verify_target=N
     B = Builder(engine, st)
     res.builder = B
     I.paths = 0
+    I.deadline = time.time() + float(os.environ.get("VF_CASE_BUDGET_S", "240"))
     I.inlined = set()
     I.used_contracts = set()
     I.used_overrides = set()
